@@ -38,7 +38,8 @@ MEASURED_FAST = set(
     + ["c08_gene_n1_t1_cut2", "c08_gene_n1_t1_cut4", "c08_gene_n1_t1_ext4", "c08_gene_n2_t2_cut1", "c08_gene_n2_t2_cut4", "c08_gene_n2_t2_ext1",
        "c08_omim_n1_t1_cut4", "c08_omim_n1_t1_ext4", "c08_orpha_n1_t1_cut4", "c08_orpha_n1_t1_ext4",
        "c07_gene_decode_n3_t2", "c07_omim_decode_n2_t2", "c07_omim_decode_n3_t1", "c07_orpha_decode_n2_t2", "c07_orpha_decode_n3_t1",
-       "c12_insert_4", "c12_insert_5"])
+       "c12_insert_4", "c12_insert_5", "c12_bitor_universe6", "c12_bitand_universe6", "c12_add_single_id",
+       "c12_ancestor_union_u3", "c12_ancestor_common_u3"])
 # CBMC option that lets symex constant-propagate reads from small heap objects (the arena id table): without it
 # the slot number read back from the table is symbolic and every later field access is a symbolic-offset access
 FS = "-Z unstable-options --cbmc-args --max-field-sensitivity-array-size 4096"
@@ -78,7 +79,7 @@ PROPERTIES = {}
 PROPERTIES["C20"] = dict(
     functions=["HpoTermId::try_from(&str)", "HpoTermId::from_u32/as_u32/to_usize", "From<u16|u32|u64|usize|[u8;4]> for HpoTermId",
                "AnnotationId::to_be_bytes (HpoTermId, GeneId, OmimDiseaseId, OrphaDiseaseId)", "u32_from_bytes"],
-    bounds="every valid UTF-8 string of 0..=8 bytes (quick: 0..=6); 'HP:'+7/10/11 symbolic tail bytes; all u32; unwind 10-15",
+    bounds="every valid UTF-8 string of 0..=8 bytes; 'HP:'+7/10/11 symbolic tail bytes (overflow border 4294967295/6); all u32; unwind 10-15",
     stubs=[],
     outside="Display/to_string for symbolic ids (core::fmt padding is out of CBMC reach); strings longer than 14 bytes; "
             "sign-prefixed tails ('+') are only checked for totality",
@@ -88,11 +89,11 @@ for n in range(0, 7):
     H("C20", "hpotermid", "c20_parse_total_len%d" % n, bounds="all UTF-8 strings of exactly %d bytes" % n,
       inputs="[u8;%d]" % n, tq=600)
 for n in (7, 8):
-    H("C20", "hpotermid", "c20_parse_total_len%d" % n, tier="thorough", mem="medium", tt=3600,
+    H("C20", "hpotermid", "c20_parse_total_len%d" % n, mem="medium", tq=900,
       bounds="all UTF-8 strings of exactly %d bytes" % n, inputs="[u8;%d]" % n)
 H("C20", "hpotermid", "c20_parse_prefixed_tail7", bounds="'HP:' + 7 symbolic bytes", inputs="[u8;7]", tq=600)
-H("C20", "hpotermid", "c20_parse_prefixed_tail10", tier="thorough", mem="medium", tt=3600, bounds="'HP:' + 10 symbolic bytes", inputs="[u8;10]")
-H("C20", "hpotermid", "c20_parse_prefixed_tail11", tier="thorough", mem="medium", tt=3600, deep=True, bounds="'HP:' + 11 symbolic bytes", inputs="[u8;11]")
+H("C20", "hpotermid", "c20_parse_prefixed_tail10", mem="medium", tq=900, bounds="'HP:' + 10 symbolic bytes", inputs="[u8;10]")
+H("C20", "hpotermid", "c20_parse_prefixed_tail11", mem="medium", tq=900, bounds="'HP:' + 11 symbolic bytes", inputs="[u8;11]")
 H("C20", "hpotermid", "c20_parse_seven_digits_is_value", bounds="all 10^7 seven-digit strings", inputs="7 digits")
 H("C20", "hpotermid", "c20_bytes_roundtrip_all_u32", bounds="all u32 / all [u8;4]", inputs="u32, [u8;4], u16, u32")
 H("C20", "hpotermid", "c20_annotation_ids_bytes_all_u32", bounds="all u32", inputs="u32")
